@@ -184,6 +184,24 @@ theorem C07_verify_sign {loc hash tok key : Str} {exp ttlNs ttlNs' nowNs : Int} 
   rw [hver, verdictOf, hte, ttlHex_eq_iff.mpr httl]
   simp
 
+/-- "At now": within the very second named by the expiry field — any instant after `exp.000000000`,
+however small the sub-second part — the signature is already reported as expired; it is accepted
+only up to and including the instant `exp·10⁹` itself. (`time.Unix(exp,0).Before(now)` compares
+nanoseconds; comparing whole seconds instead would keep the locator valid for one more second.) -/
+theorem C07_expired_within_expiry_second {loc hash tok key : Str} {exp ttlNs : Int} {hs2 : List Str}
+    (hloc : IsUnsignedLocator loc hash) (hk : key ≠ []) (ht : tok ≠ [])
+    (h0 : 0 ≤ exp) (h32 : exp < 2 ^ 32) (hmac : ∀ k m, (mac k m).length = 20)
+    (hh2 : ∀ f ∈ hs2, isOtherHint f = true) (frac : Int) (hfrac : 0 < frac) :
+    verifySignature mac (signLocator mac loc tok exp ttlNs key ++ hints hs2) tok ttlNs key
+        (exp * 1000000000 + frac) = .expired ∧
+    verifySignature mac (signLocator mac loc tok exp ttlNs key ++ hints hs2) tok ttlNs key
+        (exp * 1000000000) = .ok := by
+  constructor
+  · rw [C07_verify_sign mac hloc hk ht h0 h32 hmac hh2 rfl, if_pos (by omega)]
+  · rw [C07_verify_sign mac hloc hk ht h0 h32 hmac hh2 rfl, if_neg (by omega)]
+
+example : (0 : Int) < 1 ∧ (1790138044 : Int) * 1000000000 + 1 < (1790138044 + 1) * 1000000000 := by decide
+
 /-- non-vacuity: a concrete unsigned locator with size and a hint, a 20-byte MAC -/
 example : IsUnsignedLocator ("0123456789abcdef0123456789ABCDEF".toList ++ hints [['1','2'], ['K','@','x']])
     "0123456789abcdef0123456789ABCDEF".toList :=
@@ -350,6 +368,30 @@ theorem C07_get_requires_signature (cfg : KSConfig) (loc tok h : Str) (nowNs : I
           · simp at hr
         subst this
         exact ⟨sig, e, hs⟩
+
+/-- The gate is per token: a locator that keepstore serves to one token is refused with 403 for
+any other token string — another uuid part of a `v2/uuid/secret` token, the bare secret, any
+string at all — unless the MAC texts for the two tokens collide (`C07_message_injective`: the MAC
+inputs differ as soon as the token strings differ). -/
+theorem C07_get_other_token_denied (cfg : KSConfig) (loc tok tok' h : Str) (nowNs : Int)
+    (hsign : cfg.blobSigning = true)
+    (hget : handleGET mac cfg loc tok nowNs = .readVolume h)
+    (hdiff : ∀ hash sig e, IsSignedLocator loc hash sig e →
+      makePermSignature mac hash tok' e (ttlHex cfg.ttlNs) cfg.key ≠
+      makePermSignature mac hash tok e (ttlHex cfg.ttlNs) cfg.key) :
+    handleGET mac cfg loc tok' nowNs = .denied 403 := by
+  obtain ⟨hok, sig, e, hs⟩ := (C07_get_requires_signature mac cfg loc tok h nowNs hsign).1 hget
+  have hinv := C07_other_token_ttl_key_rejected mac (tok' := tok') (key' := cfg.key)
+    (ttlNs' := cfg.ttlNs) hs hok (hdiff h sig e hs)
+  unfold handleGET at hget ⊢
+  cases hr : routeHash loc with
+  | none => rw [hr] at hget; simp at hget
+  | some h0 =>
+    rw [hr] at hget
+    simp only [hsign, if_true] at hget ⊢
+    split
+    · rename_i hc; rw [if_pos hc] at hget; simp at hget
+    · simp [ksVerify, hinv]
 
 /-- With blob signing on, anything that does not verify is answered before any volume access:
 401 for an expired well-formed signature, 403 otherwise (400 if no route matches). -/
